@@ -222,8 +222,8 @@ EXPORT void vec_znx_normalize_base2k_ref(const MODULE* module,                  
   int64_t* cin = 0x0;
 
   // propagate carry until first limb of res
-  int64_t i = a_size - 1;
-  for (; i >= res_size; --i) {
+  int64_t i = (int64_t)a_size - 1;
+  for (; i >= (int64_t)res_size; --i) {
     znx_normalize(nn, log2_base2k, 0x0, cout, a + i * a_sl, cin);
     cin = cout;
   }
@@ -234,8 +234,8 @@ EXPORT void vec_znx_normalize_base2k_ref(const MODULE* module,                  
     cin = cout;
   }
 
-  // normalize last limb
-  znx_normalize(nn, log2_base2k, res, 0x0, a, cin);
+  // normalize last limb (absent when a_size or res_size is zero)
+  if (i == 0) znx_normalize(nn, log2_base2k, res, 0x0, a, cin);
 
   // extend result with zeros
   for (uint64_t i = a_size; i < res_size; ++i) {
